@@ -1946,11 +1946,21 @@ class UserSpaceImpl(*_user_space_impl_base):
         # together with the values calculated from them
         self.clear_subs_rootitems()
         self.del_all_itemspaces()
+        self.clear_refs_referrers(recursive=False)
         super().on_delete()
+
+    def clear_refs_referrers(self, recursive):
+        """Clear values calculated from the references by attribute access"""
+        for ref in self.own_refs.values():
+            self.model.clear_attr_referrers(ref)
+        if recursive:
+            for space in self.named_spaces.values():
+                space.clear_refs_referrers(recursive)
 
     def on_rename(self, name):
         self.model.clear_obj(self)
         self.clear_all_cells(clear_input=True, recursive=True, del_items=True)
+        self.clear_refs_referrers(recursive=True)
         old_name = self.name
         self.name = name
         self.parent.named_spaces.rename_item(old_name, name)
